@@ -75,6 +75,7 @@ class Case:
         self.modes = []      # (mode, Prog, query text)
         base = {k: vec[k] for k in ("prog", "q", "qv", "ans", "status", "ball", "dynkeys")}
         alt = {a["mode"]: a["o"] for a in vec["alt"]}
+        self.alt = alt
         has_p2 = any(terms.name_of(c["h"]["n"]) == "p2" for c in vec["prog"]) or bool(vec["dynkeys"])
 
         def expect(v, mode):
@@ -134,6 +135,15 @@ class Case:
             self.text += ":- initialization(assertz(user_pred(%s(_)))).\n:- initialization(assertz(user_pred(%s(_,_)))).\n" % (
                 terms.quote_atom(prM.mapping[("p", 1)]), terms.quote_atom(prM.mapping[("p2", 2)]))
             self.modes.append(("M", prM, terms.text(('c', 'solve', (prM.q,))) + "."))
+        # MA: the meta-interpreter over the clauses that mode A added with assertz/1 (same session, after the A query)
+        if "M" in todo and "A" in todo:
+            vMA = expect(dict(base), "M")
+            vMA["prog"] = []
+            vMA["dynkeys"] = []
+            prMA = Prog(vMA, uniq + "A", KEYS)
+            self.text += ":- initialization(assertz(user_pred(%s(_)))).\n:- initialization(assertz(user_pred(%s(_,_)))).\n" % (
+                terms.quote_atom(prMA.mapping[("p", 1)]), terms.quote_atom(prMA.mapping[("p2", 2)]))
+            self.modes.append(("MA", prMA, terms.text(('c', 'solve', (prMA.q,))) + "."))
         # Q, N: the query goal of the static program inside call/1, call/N
         if "Q" in todo:
             prQ = Prog(expect(dict(base), "Q"), uniq + "S", KEYS)
@@ -153,16 +163,42 @@ class Case:
     def steps(self):
         return [{"consult": self.text}] + [{"q": q, "max": MAXANS + 1, "tmo_ms": TMO_MS} for (_, _, q) in self.modes]
 
-    def judge(self, res):
-        """res: results of steps(); returns list of (mode, diff or None)"""
+    def isolated_jobs(self, head, key):
+        """one fresh session per mode (used when a batch was disturbed by a panic, a timeout or a crash)"""
+        jobs = []
+        qA = [q for (m, _, q) in self.modes if m == "A"]
+        for (m, _, q) in self.modes:
+            pre = [{"q": qA[0], "max": MAXANS + 1, "tmo_ms": TMO_MS}] if m == "MA" and qA else []
+            jobs.append({"id": "%s-%s" % (key, m), "fresh": True, "timeout": 60,
+                         "steps": head + [{"consult": self.text}] + pre + [{"q": q, "max": MAXANS + 1, "tmo_ms": TMO_MS}]})
+        return jobs
+
+    def judge(self, raw):
+        """raw: one harness result per mode (query result, {"panic":..} or {"crash":..}).
+        Returns a list of (mode, violation text or None, tag).  What C08 asserts is agreement with the static code:
+        where the static run matches the specification every mode is compared with the specification's expectation for it;
+        where the static run itself differs from the specification (that is C07's assertion, not C08's) the modes that
+        must agree with static code are compared with the observed static answers instead."""
         out = []
-        if "panic" in res[0]:
-            return [(m, "consult panic: " + res[0]["panic"]) for (m, _, _) in self.modes]
-        for (mode, pr, _), r in zip(self.modes, res[1:]):
-            if r.get("tmo"):
-                out.append((mode, "timeout (no termination within %d ms; the spec terminates)" % TMO_MS))
+        prS, rS = self.modes[0][1], raw[0]
+        dS = hard(rS) or cmp_spec(prS, rS)
+        okS = dS is None
+        for (mode, pr, _), r in zip(self.modes, raw):
+            h = hard(r)
+            if h:
+                out.append((mode, h, "hard"))
+            elif mode == "S":
+                out.append((mode, None, "ok" if okS else "static_differs_from_spec"))
+            elif okS or hard(rS):
+                d = cmp_spec(pr, r)
+                out.append((mode, d, "ok"))
+            elif mode in self.alt:
+                d = cmp_spec(pr, r)
+                out.append((mode, None, "ok" if d is None else "inconclusive"))
             else:
-                out.append((mode, pr.compare(r, MAXANS)))
+                same = same_real(prS, rS, pr, r)
+                out.append((mode, None if same else "differs from static code: static gave %s, this mode gave %s (spec: %s)" % (
+                    brief(prS, rS), brief(pr, r), dS), "follows_static" if same else "differs"))
         return out
 
     def cls(self):
@@ -173,10 +209,98 @@ class Case:
         features(terms.from_tla(self.vec["q"]), fs)
         return ",".join(sorted(fs)) + "|" + self.vec["status"]
 
+    def shape(self):
+        """syntactic tags of the program used in violation signatures"""
+        tags = []
+        if any(cut_in_meta_arg(terms.from_tla(c["b"]), False) for c in self.vec["prog"]):
+            tags.append("cut-in-meta-arg")
+        if any(is_nonnumeric_lhs(terms.from_tla(c["b"])) for c in self.vec["prog"]):
+            tags.append("is-nonnumeric-lhs")
+        return ",".join(tags) or "-"
+
+
+OPAQUE = {("call", 1): (0,), ("\\+", 1): (0,), ("once", 1): (0,), ("ignore", 1): (0,), ("findall", 3): (1,),
+          ("forall", 2): (0, 1), ("catch", 3): (0, 2)}
+
+
+def cut_in_meta_arg(t, inside):
+    if t == ('a', '!'):
+        return inside
+    if t[0] != 'c':
+        return False
+    k = (t[1], len(t[2]))
+    if k in ((",", 2), (";", 2), ("->", 2)):
+        return any(cut_in_meta_arg(x, inside) for x in t[2])
+    if k in OPAQUE:
+        return any(cut_in_meta_arg(t[2][i], True) for i in OPAQUE[k])
+    return False
+
+
+def is_nonnumeric_lhs(t):
+    """some is/2 goal whose left operand is an atom or a compound term"""
+    if t[0] != 'c':
+        return False
+    if t[1] == 'is' and len(t[2]) == 2 and t[2][0][0] in ('a', 'c'):
+        return True
+    return any(is_nonnumeric_lhs(x) for x in t[2])
+
+
+def hard(r):
+    """a panic or crash of the code under test: a violation in whatever mode it happens"""
+    if "crash" in r:
+        return "crash(%s) (abort, runaway or memory exhaustion)" % r["crash"]
+    if "panic" in r:
+        return "panic: " + r["panic"]
+    return None
+
+
+def cmp_spec(pr, r):
+    if r.get("tmo"):
+        return "timeout (no termination within %d ms; the spec terminates)" % TMO_MS
+    return pr.compare(r, MAXANS)
+
+
+def real_outcome(pr, r):
+    """(answers, terminator) of a real run with predicate names mapped back; terminator: None | 'F' | ball"""
+    from lib.prolog_replay import unrename_term
+    answers, term = [], None
+    for a in r["a"]:
+        if a == "F":
+            term = "F"
+            break
+        if isinstance(a, dict) and ("e" in a or "x" in a):
+            b = unrename_term(terms.from_h(a.get("e") or a.get("x")), pr.inv)
+            if b[0] == 'c' and b[1] == 'error' and len(b[2]) == 2:
+                b = ('c', 'error', (b[2][0], ('a', '$ctx')))
+            term = b
+            break
+        answers.append(pr.got_answer(a))
+    return answers[:MAXANS], (term if len(answers) <= MAXANS else None)
+
+
+def same_real(pr1, r1, pr2, r2):
+    if r1.get("tmo") or r2.get("tmo"):
+        return bool(r1.get("tmo")) and bool(r2.get("tmo"))
+    a1, t1 = real_outcome(pr1, r1)
+    a2, t2 = real_outcome(pr2, r2)
+    if len(a1) != len(a2) or not all(x is not None and y is not None and terms.variant(x, y) for x, y in zip(a1, a2)):
+        return False
+    if isinstance(t1, tuple) or isinstance(t2, tuple):
+        return isinstance(t1, tuple) and isinstance(t2, tuple) and terms.variant(t1, t2)
+    return True      # None / 'F': whether the last answer leaves a choice point is not specified
+
+
+def brief(pr, r):
+    if r.get("tmo"):
+        return "no termination within %d ms" % TMO_MS
+    a, t = real_outcome(pr, r)
+    return "[%s]%s" % ("; ".join(terms.show(x) if x else "?" for x in a),
+                       "" if t is None else (" then false" if t == "F" else " then ball " + terms.show(t)))
+
 
 def signature(case, mode, d, q):
-    return "mode=%s program=%s query=%s: %s" % (mode, " ".join(clause_text(terms.from_tla(c["h"]), terms.from_tla(c["b"]))
-                                                                  for c in case.vec["prog"]), q, d)
+    return "mode=%s shape=%s program=%s query=%s: %s" % (
+        mode, case.shape(), " ".join(clause_text(terms.from_tla(c["h"]), terms.from_tla(c["b"])) for c in case.vec["prog"]), q, d)
 
 
 def check_vectors(rep, vecs, MI, binary=None):
@@ -191,15 +315,18 @@ def check_vectors(rep, vecs, MI, binary=None):
             steps += cs.steps()
         jobs.append({"id": bi, "steps": steps, "timeout": 240, "fresh": True})
     results = run_jobs(jobs, workers=8, job_timeout=240, binary=binary)
+    tags = {}
+    examples = []
 
-    def record(cs, verdicts, extra=None):
-        for (mode, d), (_, pr, q) in zip(verdicts, cs.modes):
+    def record(cs, raw):
+        for (mode, d, tag), (_, pr, q) in zip(cs.judge(raw), cs.modes):
             rep.case(mode + "|" + cs.cls())
+            tags[tag] = tags.get(tag, 0) + 1
+            if tag == "static_differs_from_spec" and len(examples) < 25:
+                examples.append({"program": cs.modes[0][1].text.strip(), "query": q, "spec_vs_static": cmp_spec(pr, raw[0])})
             if d:
-                det = {"vector": cs.vec, "mode": mode, "diff": d, "query": q, "text": cs.text, "mi": MI}
-                if extra:
-                    det.update(extra)
-                rep.violation(signature(cs, mode, d, q), det)
+                rep.violation(signature(cs, mode, d, q),
+                              {"vector": cs.vec, "mode": mode, "diff": d, "query": q, "text": cs.text, "mi": MI})
 
     rerun = []
     for job in jobs:
@@ -213,57 +340,30 @@ def check_vectors(rep, vecs, MI, binary=None):
         for j in range(n):
             cs, off = cases[(bi, j)]
             rs = r["res"][off: off + 1 + len(cs.modes)]
-            if poisoned or len(rs) < 1 + len(cs.modes):
+            if poisoned or len(rs) < 1 + len(cs.modes) or any(("panic" in x or x.get("tmo")) for x in rs):
+                poisoned = True      # the Machine is rebuilt after a panic/timeout: helpers are gone for the rest of the batch
                 rerun.append((bi, j))
                 continue
-            if any(("panic" in x or x.get("tmo")) for x in rs):
-                poisoned = True      # the Machine was rebuilt: helpers are gone for the rest of the batch
-                rerun.append((bi, j))
-                continue
-            record(cs, cs.judge(rs))
+            record(cs, rs[1:])
     if rerun:
-        single = [{"id": "%d-%d" % k, "fresh": True, "timeout": 90, "steps": head + cases[k][0].steps()} for k in rerun]
-        rs2 = run_jobs(single, workers=8, job_timeout=90, binary=binary)
+        single = []
+        for k in rerun:
+            single += cases[k][0].isolated_jobs(head, "%d-%d" % k)
+        rs2 = run_jobs(single, workers=8, job_timeout=60, binary=binary)
         for k in rerun:
             cs = cases[k][0]
-            rr = rs2.get("%d-%d" % k, {"crash": "missing"})
-            if "crash" in rr:
-                # find the mode: one fresh session per mode
-                per = [{"id": "%d-%d-%s" % (k[0], k[1], m), "fresh": True, "timeout": 60,
-                        "steps": head + [{"consult": cs.text}, {"q": q, "max": MAXANS + 1, "tmo_ms": TMO_MS}]} for (m, _, q) in cs.modes]
-                rs3 = run_jobs(per, workers=8, job_timeout=60, binary=binary)
-                verdicts = []
-                for (m, pr, q) in cs.modes:
-                    x = rs3.get("%d-%d-%s" % (k[0], k[1], m), {"crash": "missing"})
-                    if "crash" in x:
-                        verdicts.append((m, "crash(%s) (abort, non-termination or memory exhaustion)" % x["crash"]))
-                    elif "panic" in x["res"][2]:
-                        verdicts.append((m, "consult panic: " + x["res"][2]["panic"]))
-                    elif x["res"][3].get("tmo"):
-                        verdicts.append((m, "timeout (no termination within %d ms; the spec terminates)" % TMO_MS))
-                    else:
-                        verdicts.append((m, pr.compare(x["res"][3], MAXANS)))
-                record(cs, verdicts)
-            else:
-                res_ = rr["res"][2:]
-                # after a panic/timeout inside this single run the later modes ran without helpers: redo those alone
-                verdicts = cs.judge(res_) if len(res_) == 1 + len(cs.modes) else [(m, "missing result") for (m, _, _) in cs.modes]
-                bad = [i for i, x in enumerate(res_[1:]) if "panic" in x or x.get("tmo")]
-                if bad:
-                    first = bad[0]
-                    per = [{"id": "%d-%d-%s" % (k[0], k[1], m), "fresh": True, "timeout": 60,
-                            "steps": head + [{"consult": cs.text}, {"q": q, "max": MAXANS + 1, "tmo_ms": TMO_MS}]}
-                           for (m, _, q) in cs.modes[first + 1:]]
-                    rs3 = run_jobs(per, workers=8, job_timeout=60, binary=binary)
-                    for i, (m, pr, q) in enumerate(cs.modes[first + 1:]):
-                        x = rs3.get("%d-%d-%s" % (k[0], k[1], m), {"crash": "missing"})
-                        if "crash" in x:
-                            verdicts[first + 1 + i] = (m, "crash(%s)" % x["crash"])
-                        elif x["res"][3].get("tmo"):
-                            verdicts[first + 1 + i] = (m, "timeout")
-                        else:
-                            verdicts[first + 1 + i] = (m, pr.compare(x["res"][3], MAXANS))
-                record(cs, verdicts)
+            raw = []
+            for (m, _, _) in cs.modes:
+                x = rs2.get("%d-%d-%s" % (k[0], k[1], m), {"crash": "missing"})
+                if "crash" in x:
+                    raw.append(x)
+                elif "panic" in x["res"][2]:
+                    raw.append({"panic": "consult: " + x["res"][2]["panic"]})
+                else:
+                    raw.append(x["res"][-1])
+            record(cs, raw)
+    rep.extra["verdict_tags"] = tags
+    rep.extra["static_differs_from_spec_examples"] = examples
 
 
 def run(tier):
@@ -329,13 +429,14 @@ def replay(path):
     d = json.load(open(path))
     det = d["detail"]
     cs = Case(det["vector"], "0")
-    r = run_jobs([{"id": 0, "fresh": True, "timeout": 120,
-                   "steps": [{"consult": HELPERS}, {"consult": det["mi"]}] + cs.steps()}], workers=1, job_timeout=120)
+    head = [{"consult": HELPERS}, {"consult": det["mi"]}]
+    rs = run_jobs(cs.isolated_jobs(head, "r"), workers=4, job_timeout=60)
     print(cs.text)
-    if "res" not in r[0]:
-        print(r[0])
-        return 0
-    for (m, pr, q), x in zip(cs.modes, r[0]["res"][3:]):
-        print(m, q, "=>", json.dumps(x)[:600])
-        print("   diff:", "timeout" if x.get("tmo") else pr.compare(x, MAXANS))
+    raw = []
+    for (m, pr, q) in cs.modes:
+        x = rs.get("r-%s" % m, {"crash": "missing"})
+        raw.append(x if "crash" in x else x["res"][-1])
+        print(m, q, "=>", json.dumps(raw[-1])[:500])
+    for (m, dd, tag) in cs.judge(raw):
+        print("  ", m, tag, dd or "")
     return 0
